@@ -570,6 +570,10 @@ func decodeArray(raw []byte, elemOid int) []interface{} {
 	if ndim <= 0 || ndim > 6 {
 		return nil
 	}
+	// the dimensions and lower bounds (8 bytes per dimension) must lie inside the value
+	if len(raw) < 12+int(ndim)*8 {
+		return nil
+	}
 
 	dataoff := i32(raw, 4)
 	total := int32(1)
@@ -583,7 +587,12 @@ func decodeArray(raw []byte, elemOid int) []interface{} {
 	var nullBitmap []byte
 	dataStart := 12 + ndim*8
 	if dataoff > 0 {
-		nullBitmap = raw[dataStart : dataStart+(total+7)/8]
+		// the null bitmap must lie inside the value and the data must start after it
+		bitmapEnd := int(dataStart) + (int(total)+7)/8
+		if bitmapEnd > len(raw) || int(dataoff)-4 < bitmapEnd {
+			return nil
+		}
+		nullBitmap = raw[dataStart:bitmapEnd]
 		// dataoffset is measured from the start of the varlena, i.e. it includes the 4-byte length word that raw lacks
 		dataStart = dataoff - 4
 	}
